@@ -509,11 +509,7 @@ func (c *Ctx) unprotectGateRule(r *Report, rule string, a *ikeAnchors) {
 			continue
 		}
 		p := b.Preds[0]
-		iff, ok := p.Instrs[len(p.Instrs)-1].(*ssa.If)
-		if !ok || p.Succs[0] != b {
-			continue
-		}
-		cond, ok := iff.Cond.(*ssa.BinOp)
+		cond, ok := edgeComparison(p, b)
 		if !ok {
 			continue
 		}
@@ -529,7 +525,7 @@ func (c *Ctx) unprotectGateRule(r *Report, rule string, a *ikeAnchors) {
 					}
 				}
 			}
-		case token.GTR:
+		case token.GTR, token.NEQ:
 			if cl, ok := cond.X.(*ssa.Call); ok {
 				if bi, ok := cl.Call.Value.(*ssa.Builtin); ok && bi.Name() == "len" {
 					first = p // the length test precedes the type test
